@@ -177,7 +177,8 @@ func checkCmd(args []string) {
 		fmt.Fprintln(os.Stderr, "contracts:", err)
 		os.Exit(2)
 	}
-	work := filepath.Join(*root, "work", pl.Property)
+	// one scratch directory per run: two runs of the same property (quick and thorough, or two trees) must not share files
+	work := filepath.Join(*root, "work", fmt.Sprintf("%s-%d", pl.Property, os.Getpid()))
 	os.RemoveAll(work)
 	os.MkdirAll(work, 0o755)
 	defer os.RemoveAll(work)
